@@ -726,6 +726,13 @@ func (l *Lang) Order(shapes map[string]*Shape) *report.RuleResult {
 			// last element nests what comes AFTER the list innermost. The other combinations turn the source order
 			// of the elements inside out.
 			for _, fd := range w.folds {
+				// the list a loop walks is itself put together in source order (seed C15-12: the links that follow a
+				// call appended before the call)
+				if lv, ok := fd.List.(ListV); ok {
+					if msg := l.ascending(lv); msg != "" {
+						bad[fmt.Sprintf("%s/fold-list:%s", pkey, Canon(fd.List))] = "the list the chain loop walks: " + msg + " on path [" + pathLabel(p) + "]"
+					}
+				}
 				ra, rl := l.rangeOf(fd.Acc), l.rangeOf(fd.List)
 				if ra.Empty || rl.Empty {
 					continue
@@ -850,7 +857,106 @@ func (l *Lang) Order(shapes map[string]*Shape) *report.RuleResult {
 	return res
 }
 
+// listCoord: where in the list held by one right-hand-side symbol the leaves of v lie, as an interval of
+// element positions (big = the last element). ok is false when v holds nothing of such a list or mixes lists.
+func listCoord(v Val) (base string, lo, hi int, ok bool) {
+	const big = 1 << 20
+	first := true
+	bad := false
+	note := func(b string, l, h int) {
+		if first {
+			base, lo, hi, first = b, l, h, false
+			return
+		}
+		if b != base {
+			bad = true
+			return
+		}
+		if l < lo {
+			lo = l
+		}
+		if h > hi {
+			hi = h
+		}
+	}
+	var leaf func(v Val) (string, int, int, bool)
+	leaf = func(v Val) (string, int, int, bool) {
+		switch x := v.(type) {
+		case Idx:
+			if _, isSym := x.Base.(Sym); isSym {
+				switch x.Which {
+				case "0":
+					return x.Base.String(), 0, 0, true
+				case "last":
+					return x.Base.String(), big, big, true
+				}
+				return x.Base.String(), 0, big, true
+			}
+			return leaf(x.Base)
+		case Slc:
+			if _, isSym := x.Base.(Sym); isSym {
+				switch x.Which {
+				case "1:":
+					return x.Base.String(), 1, big, true
+				case ":last":
+					return x.Base.String(), 0, big - 1, true
+				}
+				return x.Base.String(), 0, big, true
+			}
+			return leaf(x.Base)
+		case Part:
+			return leaf(x.Base)
+		case ValueOf:
+			return leaf(x.Tok)
+		}
+		return "", 0, 0, false
+	}
+	var visit func(v Val)
+	visit = func(v Val) {
+		switch x := v.(type) {
+		case Idx, Slc:
+			if b, l, h, ok := leaf(v); ok {
+				note(b, l, h)
+			}
+		case Part:
+			if x.F == "Position" || x.F == "Value" {
+				return
+			}
+			if b, l, h, ok := leaf(v); ok {
+				note(b, l, h)
+			}
+		case ListV:
+			for _, sg := range x.Segs {
+				visit(sg)
+			}
+		case Elem:
+			visit(x.V)
+		case *Obj:
+			for f, fv := range x.Fields {
+				if f != "Position" {
+					visit(fv)
+				}
+			}
+		}
+	}
+	visit(v)
+	return base, lo, hi, !first && !bad
+}
+
 func (l *Lang) ascending(lv ListV) string {
+	// pieces of one and the same list keep their order: what comes from element 0 before the elements from 1 on
+	for i, sa := range lv.Segs {
+		ba, loa, _, oka := listCoord(sa)
+		if !oka {
+			continue
+		}
+		for _, sb := range lv.Segs[i+1:] {
+			bb, _, hib, okb := listCoord(sb)
+			if okb && ba == bb && loa > hib {
+				return fmt.Sprintf("list elements are not in source order: %s (elements from %d on of %s) comes before %s (element %d of the same list)", sa, loa, ba, sb, hib)
+			}
+		}
+	}
 	var prev Range
 	prev.Empty = true
 	for _, sg := range lv.Segs {
